@@ -9,7 +9,7 @@ use urandom::{Random, Rng};
 enum Ev {
 	Chunk(usize),
 	Intr,
-	Err,
+	Err(io::ErrorKind),
 }
 
 /// hands out the data as the script dictates; an exhausted script hands out everything asked for
@@ -18,6 +18,7 @@ struct Scripted {
 	pos: usize,
 	script: Vec<Ev>,
 	next: usize,
+	errs: std::rc::Rc<std::cell::Cell<usize>>,
 }
 
 impl io::Read for Scripted {
@@ -33,7 +34,10 @@ impl io::Read for Scripted {
 		};
 		match ev {
 			Ev::Intr => Err(io::Error::new(io::ErrorKind::Interrupted, "interrupted")),
-			Ev::Err => Err(io::Error::new(io::ErrorKind::Other, "scripted failure")),
+			Ev::Err(kind) => {
+				self.errs.set(self.errs.get() + 1);
+				Err(io::Error::new(kind, "scripted failure"))
+			}
 			Ev::Chunk(k) => {
 				let n = usize::min(usize::min(usize::max(k, 1), buf.len()), self.data.len() - self.pos);
 				buf[..n].copy_from_slice(&self.data[self.pos..self.pos + n]);
@@ -74,15 +78,26 @@ pub fn read(req: &Req) -> R<String> {
 	for s in req.strs("script") {
 		script.push(match s {
 			"i" => Ev::Intr,
-			"e" => Ev::Err,
+			// every error kind other than Interrupted is a failure of the reader: the operation must panic
+			"e" => Ev::Err(io::ErrorKind::Other),
+			"e:wouldblock" => Ev::Err(io::ErrorKind::WouldBlock),
+			"e:timedout" => Ev::Err(io::ErrorKind::TimedOut),
+			"e:eof" => Ev::Err(io::ErrorKind::UnexpectedEof),
+			"e:brokenpipe" => Ev::Err(io::ErrorKind::BrokenPipe),
+			"e:invaliddata" => Ev::Err(io::ErrorKind::InvalidData),
+			"e:oom" => Ev::Err(io::ErrorKind::OutOfMemory),
+			"e:unsupported" => Ev::Err(io::ErrorKind::Unsupported),
 			_ => Ev::Chunk(s.strip_prefix("c:").ok_or(Bad)?.parse().map_err(|_| Bad)?),
 		});
 	}
-	let mut r = Read::new(Scripted { data, pos: 0, script, next: 0 });
+	let errs = std::rc::Rc::new(std::cell::Cell::new(0usize));
+	let mut r = Read::new(Scripted { data, pos: 0, script, next: 0, errs: errs.clone() });
 	let mut out = Vec::new();
 	for op in req.strs("ops") {
 		out.push(op_on(&mut r, op)?);
 	}
+	// for the oracle only (stripped before the comparison with the model): how many I/O errors the reader reported
+	out.push(format!("errs={}", errs.get()));
 	Ok(out.join(" "))
 }
 
